@@ -111,6 +111,24 @@ Section R.
     rewrite (rs_for_pure keys (fun r s => padd r s)). reflexivity. Qed.
 End R.
 #[global] Hint Rewrite @r_pk_bytes : rfn.
+#[global] Hint Rewrite @r_basic_partial_sign : rfn.
+#[global] Hint Rewrite @r_basic_partial_verify : rfn.
+#[global] Hint Rewrite @r_basic_sign : rfn.
+#[global] Hint Rewrite @r_basic_verify : rfn.
+#[global] Hint Rewrite @r_basic_aggregate_verify : rfn.
+#[global] Hint Rewrite @r_aug_sign : rfn.
+#[global] Hint Rewrite @r_aug_verify : rfn.
+#[global] Hint Rewrite @r_aug_aggregate_verify : rfn.
+#[global] Hint Rewrite @r_pop_partial_sign : rfn.
+#[global] Hint Rewrite @r_pop_partial_verify : rfn.
+#[global] Hint Rewrite @r_pop_sign : rfn.
+#[global] Hint Rewrite @r_pop_verify_sig : rfn.
+#[global] Hint Rewrite @r_pop_multi_sig_verify : rfn.
+#[global] Hint Rewrite @r_pop_aggregate_verify : rfn.
+#[global] Hint Rewrite @r_pop_prove : rfn.
+#[global] Hint Rewrite @r_pop_verify : rfn.
+#[global] Hint Rewrite @r_multi_from_signatures : rfn.
+#[global] Hint Rewrite @r_multi_from_public_keys : rfn.
 Print Assumptions r_basic_partial_sign.
 Print Assumptions r_basic_partial_verify.
 Print Assumptions r_basic_sign.
